@@ -52,6 +52,11 @@ def cases(draw, tier="quick"):
             for _ in range(draw(st.integers(0, 4))):
                 ops.append(["write", [side, idx], draw(st.sampled_from(["o", "a"])), draw(st.sampled_from([1, 50, 3000]))])
     P["ops"] = ops
+    # an aged session: that many generations were used up (loss, reconvergence) before the generated schedule starts,
+    # so sequence numbers and generation counters are past their first decade
+    P["pre_generations"] = draw(st.sampled_from([0, 0, 0, 0, 3, 6]))
+    if P["pre_generations"]:
+        P["dilate_at"] = ["start", "start"]
     n = draw(st.integers(30, 400))
     P["tape"] = draw(st.binary(min_size=n, max_size=n))
     return P
@@ -157,6 +162,16 @@ def run_case(P):
                 out.append((1, ("custom", kill_one)))
         return out
     try:
+        aged = 0
+        if P.get("pre_generations"):
+            case.settles.append(case.settle(after_step=after))
+            for _ in range(P["pre_generations"]):
+                links = [l for l in case.selected_links() if not l.a.broken]
+                if not links or not all(m is not None and m._connection for m in case.managers()):
+                    break
+                case.do_kill(links[0])
+                case.settles.append(case.settle(after_step=after))
+                aged += 1
         case.run(extra_choices=extra, after_step=after)
         for i in range(2):
             if not case.dilated[i]:
@@ -198,7 +213,7 @@ def run_case(P):
         sep = abs(dilate_steps[0] - dilate_steps[1])
     res.nontrivial = case.kills >= 1 or max_cands[0] >= 2 or bool(sep)
     res.features = dict(kills=common.bucket(case.kills, [0, 1, 2, 4]), cand_kills=cand_killed[0], relay=P["relay"],
-                        nl="%d%d" % tuple(P["no_listen"]), cands=min(max_cands[0], 3), late="/".join(P["dilate_at"]))
+                        nl="%d%d" % tuple(P["no_listen"]), cands=min(max_cands[0], 3), late="/".join(P["dilate_at"]), aged=aged)
     for (exc, frame, msg) in case.errors:
         res.notes["errlog:%s@%s" % (exc, frame)] += 1
     res.notes["kills"] += case.kills
